@@ -22,7 +22,7 @@ func genLargeCfg(t *rapid.T, kind string) PCfg {
 		}
 		c.BufferSize = rapid.IntRange(33_000, hi).Draw(t, "buf")
 	case 1:
-		c.BufferSize = rapid.SampledFrom([]int{32767, 32768, 32769, 65535, 65536, 65537, 40_000}).Draw(t, "bufPow")
+		c.BufferSize = rapid.SampledFrom([]int{32767, 32768, 32769, 65535, 65536, 65537, 40_000, 65539, 65541, 65543, 65544, 131072 + 5, 131072 + 7}).Draw(t, "bufPow")
 		if sa && c.BufferSize > 40_000 {
 			c.BufferSize = 32768 + c.BufferSize%3
 		}
